@@ -115,6 +115,11 @@ def check_prim(kind, f, v, path, out):
         _range(f, v, path, out)
     elif kind == 'Decimal':
         _range({k: D(x) if isinstance(x, str) else x for k, x in f.items()}, v, path, out)
+    elif kind in ('DateTime', 'Date', 'Time', 'Double'):
+        try:
+            _range({k: gen.facet_native(kind, x) for k, x in f.items() if k in ('ge', 'gt', 'le', 'lt')}, v, path, out)
+        except TypeError:
+            out.append((path, 'lexical'))
     elif kind == 'Unicode':
         if 'min_len' in f and len(v) < f['min_len']:
             out.append((path, 'min_len'))
@@ -252,6 +257,14 @@ def set_at(root, path, value):
     return root
 
 
+def _has_range(f):
+    return any(k in f for k in ('ge', 'gt', 'le', 'lt'))
+
+
+def _bounds(kind, f):
+    return [gen.facet_native(kind, f[k]) for k in ('ge', 'gt', 'le', 'lt') if k in f]
+
+
 def boundary_values(rng, t, exhaustive8=False, lexical=True):
     """[(value, label)] for a leaf slot: on, just inside and just outside every
     boundary of the declaration, plus null / absent / lexically ill-formed."""
@@ -328,19 +341,30 @@ def boundary_values(rng, t, exhaustive8=False, lexical=True):
         if lexical:
             out += [(Raw('maybe'), 'lexical')]
     elif kind == 'Double':
-        out += [(1.5, 'double')]
+        out += [(1.5, 'double')] if not _has_range(f) else []
+        out += [(float('nan'), 'double_nan'), (float('inf'), 'double_inf'), (float('-inf'), 'double_neginf')]     # values of xs:double
+        for b in _bounds(kind, f):
+            out += [(b - 0.25, 'double_bound'), (b, 'double_bound'), (b + 0.25, 'double_bound')]
         if lexical:
             out += [(Raw('abc'), 'lexical')]
     elif kind == 'DateTime':
-        out += [(datetime.datetime(2020, 1, 2, 3, 4, 5), 'datetime')]
+        out += [(datetime.datetime(2020, 1, 2, 3, 4, 5), 'datetime')] if not _has_range(f) else []
+        for b in _bounds(kind, f):
+            out += [(b - datetime.timedelta(seconds=1), 'datetime_bound'), (b, 'datetime_bound'), (b + datetime.timedelta(seconds=1), 'datetime_bound'),
+                    (b + datetime.timedelta(microseconds=1), 'datetime_bound'), (b - datetime.timedelta(microseconds=1), 'datetime_bound')]
         if lexical:
             out += [(Raw('2020-13-01T00:00:00'), 'lexical'), (Raw('yesterday'), 'lexical')]
     elif kind == 'Date':
-        out += [(datetime.date(2020, 1, 2), 'date')]
+        out += [(datetime.date(2020, 1, 2), 'date')] if not _has_range(f) else []
+        for b in _bounds(kind, f):
+            out += [(b - datetime.timedelta(days=1), 'date_bound'), (b, 'date_bound'), (b + datetime.timedelta(days=1), 'date_bound')]
         if lexical:
             out += [(Raw('2020-13-01'), 'lexical'), (Raw('01/02/2020'), 'lexical')]
     elif kind == 'Time':
-        out += [(datetime.time(3, 4, 5), 'time')]
+        out += [(datetime.time(3, 4, 5), 'time')] if not _has_range(f) else []
+        for b in _bounds(kind, f):
+            base = datetime.datetime.combine(datetime.date(2000, 1, 1), b)
+            out += [((base - datetime.timedelta(seconds=1)).time(), 'time_bound'), (b, 'time_bound'), ((base + datetime.timedelta(seconds=1)).time(), 'time_bound')]
         if lexical:
             out += [(Raw('25:00:00'), 'lexical')]
     elif kind == 'Duration':
